@@ -85,6 +85,9 @@ def generate(prop, rng, seed, index, tier):
     kinds = ['sync', 'native', 'tornado', 'future']
     for lf in leaves:
         ga = g.add({'op': 'gather', 'up': [lf]}, None)
+        if rng.random() < 0.3:
+            # the pipeline goes on locally after the gather: what follows sees values, not futures
+            ga = g.add({'op': 'map', 'up': [ga], 'fn': ['tag', 7]}, None)
         sk = {'op': 'sink', 'up': [ga], 'kind': rng.choice(kinds)}
         if sk['kind'] != 'sync':
             sk['lat'] = [rng.choice([None, 0, 0.25, 1]) for _ in range(rng.randrange(1, 3))]
